@@ -69,10 +69,21 @@ def r14a(run):
     d = run.repo.func(ENC, "JSONEncoder.default")
     da = analysis(d)
     res = [c for n, c in da.all_calls() if call_attr(c) == "resolve"]
-    ok = bool(res) and all(unparse(c.args[0]) == "type(o)" for c in res if c.args)
+    O = d.params[1] if len(d.params) > 1 else "o"
+    ok = bool(res) and all(unparse(c.args[0]) == f"type({O})" for c in res if c.args)
     rets = [n for n in da.cfg.nodes if n.kind == "stmt" and isinstance(n.ast, ast.Return)]
-    ok2 = any(isinstance(n.ast.value, ast.Call) and unparse(n.ast.value.func) == "encoder" and
-              unparse(n.ast.value.args[0]) == "o" for n in rets)
+
+    def is_resolved_encoder(n, fn) -> bool:
+        # the callee is the resolve(...) result itself or a local bound to it (whatever the local is called)
+        if isinstance(fn, ast.Call) and any(fn is c for c in res):
+            return True
+        if isinstance(fn, ast.Name):
+            defs = da.rd.defs_of(n, fn.id)
+            return bool(defs) and all(x.kind == "stmt" and isinstance(x.ast, ast.Assign) and any(x.ast.value is c for c in res)
+                                      for x in defs)
+        return False
+    ok2 = any(isinstance(n.ast.value, ast.Call) and is_resolved_encoder(n, n.ast.value.func) and n.ast.value.args
+              and unparse(n.ast.value.args[0]) == O for n in rets)
     run.check("R14a", d, "JSONEncoder.default resolves the encoder by the object's type and applies it to the object",
               ok and ok2, construct="JSONEncoder.default", message="JSONEncoder.default no longer returns "
               "encoder_registry.resolve(type(o))(o)", necessity="no registered encoder is ever applied")
@@ -195,10 +206,12 @@ def r14c(run):
 def r14d(run):
     f = run.repo.func(TR, "TypeTransformer.to_timedelta")
     fa = analysis(f)
-    signs = [n for n in fa.cfg.nodes if n.kind == "stmt" and isinstance(n.ast, ast.Assign)
-             and unparse(n.ast.targets[0]) == "sign"]
+    # the sign local is found by role: bound to an expression that pops the 'sign' group of the match
+    signs = [n for n in fa.cfg.nodes if n.kind == "stmt" and isinstance(n.ast, ast.Assign) and len(n.ast.targets) == 1
+             and isinstance(n.ast.targets[0], ast.Name) and "pop('sign'" in unparse(n.ast.value).replace('"', "'")]
     run.floor("R14d", "sign extraction in to_timedelta", len(signs), 1)
     sgn = signs[0]
+    SIGN = sgn.ast.targets[0].id
     ok_src = isinstance(sgn.ast.value, ast.IfExp) and "pop('sign'" in unparse(sgn.ast.value).replace('"', "'")
     run.check("R14d", f, "the sign group is taken out of the components", ok_src, construct="sign extraction",
               message=f"`{norm_stmt(sgn.ast)}` does not pop the sign group from the matched components",
@@ -211,9 +224,9 @@ def r14d(run):
         whole = None
         if isinstance(v, ast.BinOp) and isinstance(v.op, ast.Mult):
             a, b = v.left, v.right
-            if unparse(a) == "sign":
+            if unparse(a) == SIGN:
                 whole = b
-            elif unparse(b) == "sign":
+            elif unparse(b) == SIGN:
                 whole = a
         elif isinstance(v, ast.IfExp):
             # `-x if neg else x`
@@ -222,8 +235,8 @@ def r14d(run):
         elif isinstance(v, ast.Name):
             for o in prov(fa).of_name(r, v.id):
                 if o.kind == "expr" and isinstance(o.node, ast.BinOp) and isinstance(o.node.op, ast.Mult) \
-                        and "sign" in (unparse(o.node.left), unparse(o.node.right)):
-                    whole = o.node.right if unparse(o.node.left) == "sign" else o.node.left
+                        and SIGN in (unparse(o.node.left), unparse(o.node.right)):
+                    whole = o.node.right if unparse(o.node.left) == SIGN else o.node.left
         ok = False
         why = "the returned value is not `sign * <duration>`"
         if whole is not None:
